@@ -1857,3 +1857,317 @@ func rulePendingEOF(c *Ctx, rule string, shorts ...string) {
 		}
 	}
 }
+
+// ---- convformula (C18): the two scale conversions are the analytic pair ----
+
+// ruleConvFormula: error probabilities of the two scales are 10^(-Q/10) and
+// 1/(1+10^(Q/10)), so Phred -> Solexa is 10*log10(10^(Q/10) - 1) and
+// Solexa -> Phred is 10*log10(10^(Q/10) + 1). In the initialisers of the two
+// conversion tables the argument of the logarithm must be the power term
+// with the constant -1 (phredSolexaTable) and +1 (solexaPhredTable) added.
+// A missing or mis-signed addend makes the conversion differ from the
+// analytic value for low scores (where the two scales diverge).
+func ruleConvFormula(c *Ctx, rule string) {
+	p := c.pkg("alphabet")
+	want := map[string]int64{"phredSolexaTable": -1, "solexaPhredTable": +1}
+	for _, name := range []string{"phredSolexaTable", "solexaPhredTable"} {
+		key := "alphabet." + name + "/log-argument"
+		v, _ := p.Types.Scope().Lookup(name).(*types.Var)
+		if v == nil {
+			c.und(rule, key, token.NoPos, "table not found")
+			continue
+		}
+		init := pkgVarInit(p, v)
+		if init == nil {
+			c.und(rule, key, v.Pos(), "no initialiser")
+			continue
+		}
+		var logs []*ast.CallExpr
+		ast.Inspect(init, func(n ast.Node) bool {
+			if call, ok := n.(*ast.CallExpr); ok && isFunc(calleeOf(p, call), "math", "Log10") && len(call.Args) == 1 {
+				logs = append(logs, call)
+			}
+			return true
+		})
+		if len(logs) != 1 {
+			c.und(rule, key, init.Pos(), fmt.Sprintf("expected one math.Log10 call in the initialiser, found %d", len(logs)))
+			continue
+		}
+		isPow := func(e ast.Expr) bool {
+			call, ok := unparen(e).(*ast.CallExpr)
+			if !ok || !isFunc(calleeOf(p, call), "math", "Pow") || len(call.Args) != 2 {
+				return false
+			}
+			k, ok := constInt(p, call.Args[0])
+			return ok && k == 10
+		}
+		arg := unparen(logs[0].Args[0])
+		var addend int64
+		recognised := false
+		switch x := arg.(type) {
+		case *ast.CallExpr:
+			if isPow(x) {
+				addend, recognised = 0, true
+			}
+		case *ast.BinaryExpr:
+			if x.Op == token.ADD || x.Op == token.SUB {
+				if k, ok := constInt(p, x.Y); ok && isPow(x.X) {
+					addend, recognised = k, true
+					if x.Op == token.SUB {
+						addend = -k
+					}
+				} else if k, ok := constInt(p, x.X); ok && isPow(x.Y) && x.Op == token.ADD {
+					addend, recognised = k, true
+				}
+			}
+		}
+		switch {
+		case !recognised:
+			c.und(rule, key, logs[0].Pos(), "the argument of the logarithm is not of the form math.Pow(10, x) ± constant")
+		case addend == want[name]:
+			c.ok(rule, key, logs[0].Pos(), fmt.Sprintf("the logarithm is taken of 10^(Q/10) %+d, the analytic conversion between the two error-probability definitions", addend))
+		default:
+			c.bad(rule, key, logs[0].Pos(), fmt.Sprintf("the logarithm is taken of 10^(Q/10) %+d instead of 10^(Q/10) %+d: the converted score is not the analytically converted value (the two scales differ by exactly this term, which matters for scores below about 10), so the conversion does not preserve the error probability and the two tables are not inverse to each other", addend, want[name]))
+		}
+	}
+}
+
+// ---- tableshift (C18): shifted score tables are filled and read with the same shift ----
+
+// ruleTableShift: a score table indexed by score+shift (Solexa scores are
+// negative) is filled by a loop that computes the entry for score q+a and
+// stores it at index q+b; every lookup reads index score+c. The shifts must
+// agree: b - a == c. Otherwise each score reads its neighbour's entry.
+func ruleTableShift(c *Ctx, rule string, tables ...string) {
+	p := c.pkg("alphabet")
+	sp := c.SPkgs[p.PkgPath]
+	initFn := sp.Func("init")
+	for _, name := range tables {
+		key := "alphabet." + name + "/shift"
+		g, _ := sp.Members[name].(*ssa.Global)
+		if g == nil || initFn == nil {
+			c.und(rule, key, token.NoPos, "table not found")
+			continue
+		}
+		var fill *ssa.Function
+		for _, b := range initFn.Blocks {
+			for _, ins := range b.Instrs {
+				if st, ok := ins.(*ssa.Store); ok && st.Addr == ssa.Value(g) {
+					if call, ok := st.Val.(*ssa.Call); ok {
+						if f, ok := call.Call.Value.(*ssa.Function); ok {
+							fill = f
+						} else if mc, ok := call.Call.Value.(*ssa.MakeClosure); ok {
+							fill, _ = mc.Fn.(*ssa.Function)
+						}
+					}
+				}
+			}
+		}
+		if fill == nil {
+			c.und(rule, key, g.Pos(), "the table is not initialised by a function literal")
+			continue
+		}
+		// the filling store
+		var fillShift *int64
+		var fillPos token.Pos
+		for _, b := range fill.Blocks {
+			for _, ins := range b.Instrs {
+				st, ok := ins.(*ssa.Store)
+				if !ok {
+					continue
+				}
+				ia, ok := st.Addr.(*ssa.IndexAddr)
+				if !ok {
+					continue
+				}
+				phi, bOff, ok := linearIn(ia.Index)
+				if !ok {
+					continue
+				}
+				// the score the entry is computed for: an int -> float conversion of phi + a
+				var aOff *int64
+				seen := map[ssa.Value]bool{}
+				var find func(v ssa.Value, d int)
+				find = func(v ssa.Value, d int) {
+					if v == nil || seen[v] || d > 14 || aOff != nil {
+						return
+					}
+					seen[v] = true
+					if cv, ok := v.(*ssa.Convert); ok && isIntegral(cv.X.Type()) && !isIntegral(cv.Type()) {
+						if q, a, ok := linearIn(cv.X); ok && q == phi {
+							aOff = &a
+							return
+						}
+					}
+					if ins, ok := v.(ssa.Instruction); ok {
+						for _, op := range ins.Operands(nil) {
+							if *op != nil {
+								find(*op, d+1)
+							}
+						}
+					}
+				}
+				find(st.Val, 0)
+				if aOff == nil {
+					continue
+				}
+				d := bOff - *aOff
+				fillShift = &d
+				fillPos = st.Pos()
+			}
+		}
+		if fillShift == nil {
+			c.und(rule, key, fill.Pos(), "no fill loop of the form t[q+b] = f(float(q+a)) found")
+			continue
+		}
+		// lookups
+		nLook := 0
+		bad := ""
+		var badPos token.Pos
+		for _, f := range srcFuncs(sp) {
+			if f == fill {
+				continue
+			}
+			for _, b := range f.Blocks {
+				for _, ins := range b.Instrs {
+					ia, ok := ins.(*ssa.IndexAddr)
+					if !ok || ia.X != ssa.Value(g) {
+						continue
+					}
+					l := linOf(ia.Index, &linEnv{noInline: true})
+					if len(l.coef) != 1 {
+						continue
+					}
+					one := false
+					for _, cf := range l.coef {
+						one = cf == 1
+					}
+					if !one {
+						continue
+					}
+					nLook++
+					if l.k != *fillShift {
+						bad = fmt.Sprintf("%s reads entry score%+d but the fill loop stores the entry for score s at index s%+d", funcName(f), l.k, *fillShift)
+						badPos = ia.Pos()
+					}
+				}
+			}
+		}
+		switch {
+		case nLook == 0:
+			c.und(rule, key, fillPos, "no lookup of the table by score found")
+		case bad != "":
+			c.bad(rule, key, badPos, bad+": every score reads a neighbouring score's value")
+		default:
+			c.ok(rule, key, fillPos, fmt.Sprintf("the fill loop stores the entry for score s at index s%+d and the %d lookup(s) read index score%+d", *fillShift, nLook, *fillShift))
+		}
+	}
+}
+
+// ---- windowpos (C10): the reported position is where the k-mer just completed begins ----
+
+// ruleWindowPos: in the scanning loop of ForEachKmerOf the callback receives
+// (position, kmer) after the letter at subscript B has been shifted into the
+// word, so the word's letters are s.Seq[B-k+1 .. B]: position + k - 1 == B.
+// Both counters advance by one per iteration, so the relation is decided from
+// their initial values as symbolic linear forms.
+func ruleWindowPos(c *Ctx, rule string) {
+	fn := c.fn("index/kmerindex", "(*Index).ForEachKmerOf")
+	c.Funcs[funcName(fn)] = true
+	key := funcName(fn) + "/reported-position"
+	var cb *ssa.Parameter
+	for _, p := range fn.Params {
+		if _, ok := p.Type().Underlying().(*types.Signature); ok {
+			cb = p
+		}
+	}
+	var call *ssa.Call
+	for _, b := range fn.Blocks {
+		for _, ins := range b.Instrs {
+			if cl, ok := ins.(*ssa.Call); ok && cb != nil && cl.Call.Value == ssa.Value(cb) && len(cl.Call.Args) == 3 {
+				call = cl
+			}
+		}
+	}
+	if call == nil {
+		c.und(rule, key, fn.Pos(), "the callback call was not found")
+		return
+	}
+	P, a, ok := linearIn(call.Call.Args[1])
+	if !ok {
+		c.und(rule, key, call.Pos(), "the reported position is not a loop counter plus a constant")
+		return
+	}
+	var loop *ssaLoop
+	for _, l := range naturalLoops(fn) {
+		if l.head == P.Block() {
+			loop = l
+		}
+	}
+	if loop == nil {
+		c.und(rule, key, call.Pos(), "the reported position is not carried by the scanning loop")
+		return
+	}
+	// the letter read in this iteration: s.Seq[B + r]
+	var B *ssa.Phi
+	var r int64
+	for b := range loop.body {
+		for _, ins := range b.Instrs {
+			ia, ok := ins.(*ssa.IndexAddr)
+			if !ok {
+				continue
+			}
+			ld, ok := ia.X.(*ssa.UnOp)
+			if !ok || ld.Op != token.MUL {
+				continue
+			}
+			fa, ok := ld.X.(*ssa.FieldAddr)
+			if !ok || structFieldName(fa.X.Type(), fa.Field) != "Seq" {
+				continue
+			}
+			if q, off, ok := linearIn(ia.Index); ok && q.Block() == loop.head {
+				B, r = q, off
+			}
+		}
+	}
+	if B == nil {
+		c.und(rule, key, call.Pos(), "no letter read s.Seq[counter] found in the scanning loop")
+		return
+	}
+	initAndStep := func(phi *ssa.Phi) (ssa.Value, int64, bool) {
+		var init ssa.Value
+		step := int64(0)
+		okStep := true
+		for i, pred := range phi.Block().Preds {
+			if loop.body[pred] {
+				q, s, ok := linearIn(phi.Edges[i])
+				if !ok || q != phi {
+					okStep = false
+				}
+				step = s
+			} else {
+				init = phi.Edges[i]
+			}
+		}
+		return init, step, okStep && init != nil
+	}
+	iP, sP, ok1 := initAndStep(P)
+	iB, sB, ok2 := initAndStep(B)
+	if !ok1 || !ok2 || sP != sB {
+		c.und(rule, key, call.Pos(), "the position and read counters do not advance in lock step")
+		return
+	}
+	env := &linEnv{noInline: true}
+	kAtom := fn.Params[0].Name() + ".k"
+	lhs := linOf(iP, env).add(linConst(a-1), 1).add(linAtom(kAtom), 1) // position + k - 1
+	rhs := linOf(iB, env).add(linConst(r), 1)                          // subscript of the letter just read
+	d := lhs.add(rhs, -1)
+	switch {
+	case d.isConst() && d.k == 0:
+		c.ok(rule, key, call.Pos(), "position + k - 1 equals the subscript of the letter just shifted into the word (initial values "+linOf(iP, env).String()+" and "+linOf(iB, env).String()+", equal steps)")
+	case d.isConst():
+		c.bad(rule, key, call.Pos(), fmt.Sprintf("the callback is given a position that is %+d away from where the k-mer it is given begins (position + k - 1 - last subscript read = %d): every reported occurrence is shifted", d.k, d.k))
+	default:
+		c.bad(rule, key, call.Pos(), "the reported position and the subscript of the last letter read differ by "+d.String()+", which is not zero: reported occurrences are not where the word occurs")
+	}
+}
